@@ -50,7 +50,28 @@ pub fn exec(op: &str, a: &[&str]) -> Option<String> {
     }
     let src = dec(a[0])?;
     match op {
-        "c05.parse" | "c05.den" | "c05.rej" | "c04.parse" => Some(parse_out(&src).0),
+        "c05.parse" | "c05.den" | "c05.rej" => Some(parse_out(&src).0),
+        "c04.parse" => {
+            // totality beyond the parser: printing, normalizing and printing the normal form of a
+            // parsed expression must return normally too
+            let (out, e) = parse_out(&src);
+            match e {
+                None => Some(out),
+                Some(e) => {
+                    let st = |r: Result<(), String>| match r {
+                        Ok(()) => "ok".to_string(),
+                        Err(p) => p,
+                    };
+                    let print = st(catch(|| e.to_string()).map(|_| ()));
+                    let dbg = st(catch(|| format!("{e:?}")).map(|_| ()));
+                    let (norm, nprint) = match catch(|| e.clone().normalize()) {
+                        Err(p) => (p, "-".to_string()),
+                        Ok(n) => ("ok".to_string(), st(catch(|| n.to_string()).map(|_| ()))),
+                    };
+                    Some(format!("{out} | T {print} {dbg} {norm} {nprint}"))
+                }
+            }
+        }
         "c06.print" | "c06.printn" => {
             let (out, e) = parse_out(&src);
             let Some(e) = e else {
@@ -74,7 +95,7 @@ pub fn exec(op: &str, a: &[&str]) -> Option<String> {
 
 /// hand-written sentences covering every syntactic variant the grammar documents (relaxations
 /// included) and the shapes that interact: they seed the corruption streams too
-pub const VARIANTS: [&str; 96] = [
+pub const VARIANTS: [&str; 102] = [
     "24/7", "24/7 off", "24/7 closed \"x\"", "\"only comment\"", "open", "off", "unknown \"u\"", "Mo", "Mo-Fr", "Mo,We,Fr",
     "Mo-Fr 10:00-12:00", "Mo-Fr 10:00-12:00,14:00-18:00", "Mo-Fr 9:00-12:00", "Mo-Fr 09:00 - 12:00", "10:00-26:00", "10:00+",
     "10:00-12:00+", "22:00-02:00", "00:00-24:00", "00:00-48:00", "24:00-48:00", "10:00-12:00/30", "10:00-12:00/01:30",
@@ -87,6 +108,8 @@ pub const VARIANTS: [&str; 96] = [
     "easter -2 days-easter +1 day", "easter-Jun 1", "Jan 1-easter", "2020", "2020-2022", "2020-2030/2", "2020+", "2020,2022",
     "2020 Jan", "2020 Jan-Mar", "2020Jan", "2020 Jan 1", "2020 Jan 1-2021 Feb 1", "2020 Jan 1+", "2020 easter", "2020-2022 Jan",
     "2020 week 1", "2020: Mo", "Jan: 10:00-12:00", "\"c\": Mo",
+    // degenerate (backwards) ranges the grammar accepts
+    "Mo[3-1]", "Fr[5-2] 10:00-12:00", "Tu[2-1,5-4] -2 days", "Mo[3-1,2]", "Su[-1--3]", "2030-2010",
 ];
 
 const SEPS: [&str; 8] = ["; ", ";", " ; ", " ;", ", ", " || ", "|| ", " ||  "];
@@ -283,7 +306,8 @@ pub fn gen4(tier: &str, rng: &mut Rng, emit: &mut dyn FnMut(String)) {
         "PH +18446744073709551615 days", "PH +18446744073709551616 days", "Jan 1 +99999999999999999999999999 days",
         "week 1-53/255", "week 1-53/256", "week 1-53/18446744073709551616", "2020-2030/65535", "2020-2030/65536",
         "2020-2030/18446744073709551616", "9999 Dec 31-1", "9999 Dec 31-Jan 1", "easter-10", "easter -1 day-10", "Jan 31-1", "Dec 31-1",
-        "(sunrise+24:00)-(sunset-24:00)", "(sunrise+23:59)+", "24:00-48:00", "24:00+", "48:00-48:00", "00:00-00:00", "Mo[5-1]", "Mo[1-5,-5--1]",
+        "(sunrise+24:00)-(sunset-24:00)", "(sunrise+23:59)+", "24:00-48:00", "24:00+", "48:00-48:00", "00:00-00:00", "Mo[5-1]", "Mo[1-5,-5--1]", "Mo[3-1]", "Fr[5-2] 10:00-12:00",
+        "Tu[2-1,5-4] -2 days", "Mo[3-1,2]", "Su[-1--3]", "Mo[-3--1]", "2030-2010", "2030-2010/3", "week 53-01", "week 10-02/3", "Dec-Jan", "Su-Mo", "Jan 31-Jan 1",
         "Mo[1,1,1,1,1,1,1,1]", "\"\"", "\"\"\"", "\"a\":\"b\"", "\"a\": \"a\"", "\"\u{0}\"", ",", ";", "||", " ", "  ", ";;", ", ,", "24/7 24/7", "24/724/7",
     ];
     for s in fixed {
